@@ -3,12 +3,42 @@
 pub mod vk;
 pub mod spec;
 pub mod h_int_write;
+pub mod h_int_parse;
+pub mod h_util;
+pub mod h_format;
+#[cfg(feature = "format")]
+pub mod h_format_setters;
+pub mod h_swar;
+pub mod h_float_tok;
+#[cfg(not(feature = "compact"))]
+pub mod h_lemire;
+#[cfg(feature = "format")]
+pub mod h_float_fmt;
+#[cfg(not(feature = "compact"))]
+pub mod h_digit_count;
 
 pub type Harness = (&'static str, fn());
 
 pub fn all_harnesses() -> Vec<Harness> {
     let mut v: Vec<Harness> = Vec::new();
     v.extend_from_slice(h_int_write::HARNESSES);
+    v.extend_from_slice(h_int_parse::HARNESSES);
+    v.extend_from_slice(h_util::HARNESSES);
+    v.extend_from_slice(h_format::HARNESSES);
+    #[cfg(feature = "format")]
+    v.extend_from_slice(h_format_setters::HARNESSES);
+    v.extend_from_slice(h_swar::HARNESSES);
+    v.extend_from_slice(h_float_tok::HARNESSES);
+    #[cfg(not(feature = "compact"))]
+    v.extend_from_slice(h_lemire::HARNESSES);
+    #[cfg(feature = "format")]
+    v.extend_from_slice(h_float_fmt::HARNESSES);
+    #[cfg(not(feature = "compact"))]
+    v.extend_from_slice(h_digit_count::HARNESSES);
+    #[cfg(all(not(feature = "compact"), feature = "power-of-two"))]
+    v.extend_from_slice(h_digit_count::pow2::HARNESSES);
+    #[cfg(all(not(feature = "compact"), feature = "radix"))]
+    v.extend_from_slice(h_digit_count::naive::HARNESSES);
     v
 }
 
@@ -23,4 +53,12 @@ macro_rules! harnesses {
         )*
         pub const HARNESSES: &[$crate::Harness] = &[ $( (stringify!($name), $name as fn()) ),* ];
     };
+}
+
+/// Number format for a radix: `from_radix(r)` needs `power-of-two`; decimal is STANDARD everywhere.
+pub const fn radix_format(r: u8) -> u128 {
+    #[cfg(feature = "power-of-two")]
+    { lexical_util::format::NumberFormatBuilder::from_radix(r) }
+    #[cfg(not(feature = "power-of-two"))]
+    { let _ = r; lexical_util::format::STANDARD }
 }
